@@ -541,6 +541,24 @@ pub fn adopt(path: &str, content: &[u8], len: u64) {
     });
 }
 
+/// A write made by the harness in the role of *another program* (an older release of the
+/// library re-stamping the headers, say) while the database is closed: unlike `damage` it is an
+/// ordinary, logged and synced write, so crash images synthesised from the log contain it.
+pub fn foreign_write(path: &str, off: u64, bytes: &[u8]) -> bool {
+    if !damage(path, off, bytes) {
+        return false;
+    }
+    with(|s| {
+        if let Some(fid) = s.paths.get(path.as_bytes()).copied() {
+            if s.logging {
+                s.log.push(Ev::Write { fid, off, data: bytes.to_vec() });
+                s.log.push(Ev::Sync { fid });
+            }
+        }
+    });
+    true
+}
+
 /// Media damage at rest: overwrite bytes of a tracked, closed file behind the code's back. The
 /// real file and the shadow view change together; nothing is logged (no call was made).
 pub fn damage(path: &str, off: u64, bytes: &[u8]) -> bool {
